@@ -128,6 +128,8 @@ type Check struct {
 	Rule   string   // how cases are enumerated / what is non-trivial
 	Assume []string // assumptions / trusted base
 	Units  func(tier string) []Unit
+	// Coverage optionally reports which types of the repository the check's catalogue covers.
+	Coverage func() any
 }
 
 var registry = map[string]*Check{}
@@ -379,6 +381,11 @@ func Finish(ch *Check, c *Ctx, root string, wall time.Duration) int {
 	}
 	if len(c.Samples) == 0 {
 		c.Samples = append(c.Samples, "no case was explored")
+	}
+	if ch.Coverage != nil {
+		if cov := ch.Coverage(); cov != nil {
+			c.Notes["catalogue coverage"] = cov
+		}
 	}
 	states, trans := c.States, c.Transitions
 	cov := map[string]any{
